@@ -70,6 +70,9 @@ var hpackPool = sync.Pool{
 func AcquireHPACK() *HPACK {
 	// TODO: Change the name
 	hp := hpackPool.Get().(*HPACK)
+	if verifOn {
+		vPoolGet(vpHPACK, hp)
+	}
 	hp.Reset()
 
 	return hp
@@ -77,6 +80,9 @@ func AcquireHPACK() *HPACK {
 
 // ReleaseHPACK puts HPACK to the pool.
 func ReleaseHPACK(hp *HPACK) {
+	if verifOn {
+		vPoolPut(vpHPACK, hp)
+	}
 	hpackPool.Put(hp)
 }
 
